@@ -67,7 +67,11 @@ func runBounded(L *Loaded, rep *Report, verif string) {
 		ovf := filepath.Join(scratch, "overlay.json")
 		os.WriteFile(ovf, ov, 0o644)
 		t0 := time.Now()
-		cmd := exec.Command("go", "test", "-overlay", ovf, "-vet=off", "-count=1", "-timeout", "600s", "-run", bc.Run, "-v", "./"+bc.Pkg)
+		limit := "600s"
+		if rep.Tier == "thorough" {
+			limit = "2400s" // the exhaustive C05 enumeration needs ~8 minutes alone and more when other checks run beside it
+		}
+		cmd := exec.Command("go", "test", "-overlay", ovf, "-vet=off", "-count=1", "-timeout", limit, "-run", bc.Run, "-v", "./"+bc.Pkg)
 		cmd.Dir = L.RepoDir
 		cmd.Env = append(os.Environ(), "GOPROXY=off", "VERIF_TIER="+rep.Tier)
 		out, err := cmd.CombinedOutput()
@@ -89,8 +93,12 @@ func runBounded(L *Loaded, rep *Report, verif string) {
 				rep.StructFails = append(rep.StructFails, StructOb{Name: "bounded/" + bc.Name + ":" + c[1], OK: false, Concrete: true,
 					Detail: "bounded check of the real code failed on case " + c[1] + " (the case is a concrete input, run through the real analyzer by " + src + "):\n" + c[2], Src: src})
 			}
-			if len(cases) == 0 {
-				rep.StructFails = append(rep.StructFails, StructOb{Name: "bounded/" + bc.Name, OK: false, Detail: "bounded check of the real function failed:\n" + tail, Src: src})
+			// the named cases explain the failure only if the harness ran to its end: a crash of the test process
+			// (fatal error, timeout, panic) after some named failures is a failure of its own, never to be absorbed
+			// by known findings that match the named cases
+			completed := strings.Contains(o, "VERIF-BOUNDED cases=")
+			if len(cases) == 0 || !completed {
+				rep.StructFails = append(rep.StructFails, StructOb{Name: "bounded/" + bc.Name, OK: false, Detail: "bounded check of the real function failed (the harness did not run to its end, or named no failing case):\n" + tail, Src: src})
 			}
 			res["failed_cases"] = len(cases)
 		} else {
